@@ -158,12 +158,16 @@ PROPS["C06"] = {
                  "tournament (n,k) in 11 concrete pairs with k <= n+1 <= 5; lexicase with 0 or 1 configured case over 0..=2 individuals each "
                  "holding a symbolic number (0..=2) of results; weighted chain Best/Worst/Random with symbolic weights 0..=3 on a 3-element and on "
                  "an empty population; DynWeighted (Best, Worst, Random) weights 0..=2, streams = 4 symbolic words then all-ones; "
-                 "identity by std::ptr::eq against every element",
-        "thorough": "as quick plus tournament (3,1),(3,4),(4,1),(4,4),(5,2),(5,3) and lexicase (2 individuals,0 cases),(3 individuals,1 case)",
+                 "identity by std::ptr::eq against every element. Lexicase with >= 2 cases (all results present): MIR engine bin/mirlex (z3), populations x cases up to 4x2 / 3x3, symbolic results, "
+                 "every case order and final order: Ok with a member of the population iff the population is non-empty, Err(EmptyPopulation) otherwise (X5), and the member survives the filtering (X1)",
+        "thorough": "as quick plus tournament (3,1),(3,4),(4,1),(4,4),(5,2),(5,3) and lexicase (2 individuals,0 cases),(3 individuals,1 case); MIR engine also 4x3 and 3x4",
     },
-    "outside": "lexicase with two or more cases (a case order exists only then; the 2x2 instance exceeds 30 GB, see C08); populations larger than 5; "
+    "mirlex": True,
+    "mirlex_labels": ["X1", "X5"],
+    "outside": "lexicase with two or more cases AND missing results (MissingTestCase is decided for <= 1 case under Kani only); populations larger than 5 (Kani) / 4 (MIR engine); "
                "population types other than arrays and Vec",
-    "assumptions": ["rand 0.9.0 choose / choose_multiple / choose_weighted / shuffle run unmodified on the symbolic generator"],
+    "assumptions": ["rand 0.9.0 choose / choose_multiple / choose_weighted / shuffle run unmodified on the symbolic generator",
+                    "bin/mirlex: rustc MIR is the semantics of the source; callee models as listed in the evidence (shuffle = every permutation, Ord on results = z3 integers); unknown statements / callees are inconclusive (exit 2)"],
     # lexicase: only rand's calculate_bound_u32 (inside shuffle) needs 13 iterations; everything else 6
     "unwind_by_harness": [("lexicase", 6)],
     "unwindset_by_harness": [("lexicase", [("calculate_bound_u32", 13)])],
